@@ -30,8 +30,12 @@ var (
 	HooksSeen int32
 )
 
+// EscapedPanics counts panics that reached sarama.PanicHandler (a goroutine of the library died).
+var EscapedPanics int32
+
 func installObserver() {
 	hookOnce.Do(func() {
+		sarama.PanicHandler = func(interface{}) { atomic.AddInt32(&EscapedPanics, 1) }
 		sarama.VerifSetObserver(func(kind string, args ...interface{}) {
 			if kind != "feeder.expiry" && kind != "feeder.handoff" {
 				return
@@ -331,6 +335,7 @@ func RunE2E(seed int64, sc E2EScenario) E2EResult {
 	want := -1
 	i := 0
 	lastProgress := time.Now()
+	waited := map[int]bool{}
 loop:
 	for {
 		if want < 0 {
@@ -341,7 +346,8 @@ loop:
 		if want >= 0 && i >= want {
 			break
 		}
-		if sc.Stall[i] && want >= 0 {
+		if sc.Stall[i] && want >= 0 && !waited[i] {
+			waited[i] = true
 			// wait for the feeder to give up on message i (its slow-reader path); on a tree without the
 			// hook this is a plain pause of many MaxProcessingTime
 			select {
